@@ -117,3 +117,16 @@ def repeat_after_scramble(fn, args, kwargs, first):
     except Exception as e:  # noqa
         return True, False, e
     return True, snapshot(second) == want, second
+
+
+def caller_edit(lst, rng):
+    """What a caller might do to a list it was handed: pop an element, empty it, reverse it, or append to it."""
+    style = rng.choice(["pop", "pop", "clear", "reverse", "append"])
+    if style == "pop" and lst:
+        lst.pop()
+    elif style == "clear":
+        del lst[:]
+    elif style == "reverse":
+        lst.reverse()
+    else:
+        lst.append(lst[0] if lst else 0)
